@@ -30,18 +30,28 @@ type panicSite struct {
 	pos    token.Pos
 	posStr string
 	how    string // how it was discharged ("" = not yet)
+	extOID string // field-deref: the field is set when this extension is present (pairing with CheckApplies still to be tried)
 	detail string
 }
 
 func runC02(c *Ctx, tier string) {
 	r := NewReport("C02", "other", tier, c)
 	r.Explanation = "The full statement (no panic for any byte string the parsers accept) is not statically decidable here: most accesses are safe because of post-conditions of the zcrypto / x-crypto parsers that an analysis of zlint cannot see. What is decided is a LEDGER of panic obligations that is complete, by construction, for the classes it covers in packages zlint, lint, util and lints/*: P1 every index or slice expression whose bounds check the Go compiler's prove pass cannot eliminate (go build -gcflags=-d=ssa/check_bce/debug=1, replayed from a private build cache; each reported position is mapped to its enclosing function and expression); P2 every type assertion without comma-ok; P3 every explicit panic in code reachable from a lint method; P4 every integer division or remainder by a non-constant in such code; P5 every dereference of the result of util.GetExtFromCert (nil when the extension is absent). Each obligation must be discharged by (a) precondition pairing decided from the lint's own CheckApplies decision table — Execute asserts c.PublicKey.(T) only if every applicable path saw the comma-ok assertion to T succeed; GetExtFromCert(c, X) is dereferenced only if every applicable path saw IsExtInCert(c, X) for the same OID —, (b) a dominating nil test of the same value, or (c) a reviewed line of /verif/ledger/C02.txt (key = class|function|expression, one-line argument, typically a parser invariant). An obligation with none of the three is a violation, so dropping `ok &&` from a CheckApplies, removing a length test the compiler relied on, or adding an unguarded x[0] to a new lint is reported with its site. NOT decided: that the ledger's arguments are true (human review against the parser source), panics inside library callees, stack or memory exhaustion."
-	r.Rule("P1 bounds (compiler prove pass); P2 unchecked assertions; P3 explicit panics; P4 division; P5 nil-able extension deref; P6 pointer result used although the call's error was discarded; P7 library callee that indexes its argument unconditionally (length requirement derived from the callee's SSA); discharge = CheckApplies pairing | dominating guard | reviewed ledger line")
+	r.Rule("P1 bounds (compiler prove pass); P2 unchecked assertions; P3 explicit panics; P4 division; P5 nil-able extension deref; P6 pointer result used although the call's error was discarded; P7 library callee that indexes its argument unconditionally (length requirement derived from the callee's SSA); P8 dereference of a pointer-typed field of a library struct (nil when the parser did not set it): dominating nil test, reviewed always-set table, ParsedDomain/ParseError pairing, or extension pairing; discharge = CheckApplies pairing | dominating guard | reviewed ledger line")
 	r.Trusted = []string{"the Go compiler's prove pass (bounds-check elimination)", "go/ssa", "the reviewed arguments in ledger/C02.txt", "zcrypto / x-crypto parser post-conditions quoted there"}
 	r.Assumptions = []string{"panics inside library functions called with unusual arguments are outside the ledger", "the ledger's one-line arguments were reviewed by reading; they are not re-proved"}
 
 	cs := BuildCensus(c)
 	r.Floor("registrations", 370, len(cs.Regs))
+	c02Core(c, r, cs, nil)
+	r.Finish()
+}
+
+// c02Core evaluates the panic-obligation ledger. With only == nil every site is
+// an obligation of the report (C02). With a filter (C01: the functions reachable
+// from CRL / OCSP lints, which run without a recovery net) only the selected
+// sites are, and the census floors and stale-line notes are left to C02.
+func c02Core(c *Ctx, r *Report, cs *Census, only func(s *panicSite) bool) {
 	var sites []*panicSite
 	sites = append(sites, c02Bounds(c, r)...)
 	reach := staticReach(c, cs)
@@ -101,6 +111,9 @@ func runC02(c *Ctx, tier string) {
 	}
 	for i, s := range sites {
 		key := keys[i]
+		if only != nil && !only(s) {
+			continue
+		}
 		escape := ""
 		if crlTypes[s.fn] {
 			escape = " — in a CRL/OCSP lint: the panic would escape LintRevocationListEx / LintOcspResponseEx (no recovery net)"
@@ -125,6 +138,9 @@ func runC02(c *Ctx, tier string) {
 		default:
 			r.Add(s.class, strings.TrimPrefix(key, s.class+"|"), s.pos, Violated, true, "undischarged panic obligation: "+s.detail+" at "+s.posStr+escape+" — not implied by the lint's CheckApplies, not guarded, and not in the reviewed ledger")
 		}
+	}
+	if only != nil {
+		return
 	}
 	var stale []string
 	for k, l := range ledger {
@@ -163,7 +179,6 @@ func runC02(c *Ctx, tier string) {
 			r.Sample(map[string]interface{}{"class": s.class, "function": s.fn, "expression": s.expr, "at": s.posStr, "discharged_by": s.how})
 		}
 	}
-	r.Finish()
 }
 
 // normExpr makes an expression usable as a stable key: blanks removed and
@@ -348,14 +363,44 @@ func shortTypeName(t types.Type) string {
 // c02NoNetKinds: functions that are methods of CRL / OCSP lint types.
 func c02NoNetKinds(c *Ctx, cs *Census) map[string]bool {
 	out := map[string]bool{}
+	reach := map[*ssa.Function]bool{}
+	var stack []*ssa.Function
+	push := func(f *ssa.Function) {
+		if f != nil && !reach[f] && isModFunc(f) && len(f.Blocks) > 0 {
+			reach[f] = true
+			stack = append(stack, f)
+		}
+	}
 	for _, reg := range cs.Regs {
 		if reg.Err == "" && (reg.Kind == "crl" || reg.Kind == "ocsp") {
-			out[fname(reg.Execute)] = true
-			out[fname(reg.CheckApplies)] = true
+			push(reg.Execute)
+			push(reg.CheckApplies)
+		}
+	}
+	for len(stack) > 0 {
+		f := stack[len(stack)-1]
+		stack = stack[:len(stack)-1]
+		for _, a := range f.AnonFuncs {
+			push(a)
+		}
+		allInstrs(f, func(in ssa.Instruction) {
+			if call, ok := in.(ssa.CallInstruction); ok {
+				push(call.Common().StaticCallee())
+			}
+		})
+	}
+	for f := range reach {
+		n := fname(f)
+		out[n] = true
+		// the compiler-report sites spell methods as pkg.(*T).M
+		if m := methSpellRe.FindStringSubmatch(n); m != nil {
+			out[m[2]+"."+"("+m[1]+m[3]+")."+m[4]] = true
 		}
 	}
 	return out
 }
+
+var methSpellRe = regexp.MustCompile(`^\((\*?)([\w/]+)\.(\w+)\)\.(.+)$`)
 
 var bceRe = regexp.MustCompile(`^(.+?):(\d+):(\d+): Found (IsInBounds|IsSliceInBounds)`)
 
@@ -555,17 +600,49 @@ func c02SSA(c *Ctx, cs *Census, reach map[*ssa.Function]bool) []*panicSite {
 				}
 				s := &panicSite{class: "assert", fn: fname(f), expr: apath(x.X) + ".(" + shortType(x.AssertedType) + ")", pos: x.Pos(), posStr: posStr,
 					detail: "type assertion " + apath(x.X) + ".(" + shortType(x.AssertedType) + ") without comma-ok in " + fname(f)}
+				pair := func(rg *Reg, field string) (bool, string) {
+					want := shortType(x.AssertedType) + ",ok"
+					return tableOf(rg).implies(func(t *T, objName string) bool {
+						return t.Op == "extract" && t.Name == "1" && len(t.Args) == 1 && t.Args[0].Op == "assert" && t.Args[0].Name == want && t.Args[0].Args[0].String() == objName+"."+field
+					})
+				}
 				if reg != nil && len(f.Params) > 1 {
 					obj := f.Params[1].Name()
 					if strings.HasPrefix(apath(x.X), obj+".") {
 						field := strings.TrimPrefix(apath(x.X), obj+".")
-						want := shortType(x.AssertedType) + ",ok"
-						if ok, why := tableOf(reg).implies(func(t *T, objName string) bool {
-							return t.Op == "extract" && t.Name == "1" && len(t.Args) == 1 && t.Args[0].Op == "assert" && t.Args[0].Name == want && t.Args[0].Args[0].String() == objName+"."+field
-						}); ok {
+						if ok, why := pair(reg, field); ok {
 							s.how = "precondition pairing: every applicable path of " + fname(reg.CheckApplies) + " saw the comma-ok assertion of ." + field + " to " + shortType(x.AssertedType) + " succeed"
 						} else {
 							s.detail += " (CheckApplies does not establish it: " + why + ")"
+						}
+					}
+				} else if reg == nil && isNewFunc(f) {
+					// a shared body newer than the rules (extracted from several Execute methods):
+					// every caller must be the Execute of a lint whose own CheckApplies establishes
+					// the assertion for the object it passes on
+					for k, p := range f.Params {
+						if !strings.HasPrefix(apath(x.X), p.Name()+".") {
+							continue
+						}
+						field := strings.TrimPrefix(apath(x.X), p.Name()+".")
+						calls := callersOf(c)[f]
+						all := len(calls) > 0
+						var names []string
+						for _, call := range calls {
+							h := call.Parent()
+							rg := byExec[h]
+							if rg == nil || len(h.Params) < 2 || k >= len(call.Call.Args) || call.Call.Args[k] != ssa.Value(h.Params[1]) {
+								all = false
+								break
+							}
+							if ok, _ := pair(rg, field); !ok {
+								all = false
+								break
+							}
+							names = append(names, rg.Name)
+						}
+						if all {
+							s.how = "precondition pairing: " + fname(f) + " is called only from the Execute of " + strings.Join(names, ", ") + ", each of whose CheckApplies saw the comma-ok assertion of ." + field + " to " + shortType(x.AssertedType) + " succeed"
 						}
 					}
 				}
@@ -575,6 +652,15 @@ func c02SSA(c *Ctx, cs *Census, reach map[*ssa.Function]bool) []*panicSite {
 					return
 				}
 				out = append(out, &panicSite{class: "panic", fn: fname(f), expr: "panic(" + trimStr(apath(x.X), 40) + ")", pos: x.Pos(), posStr: posStr, detail: "explicit panic reachable from a lint method"})
+			case *ssa.UnOp:
+				if reach[f] {
+					if s := fieldDerefSite(f, x, posStr); s != nil {
+						if s.how == "" && s.extOID != "" && reg != nil && appliesOnlyUnderExt(reg.CheckApplies, s.extOID) {
+							s.how = "precondition pairing: " + fname(reg.CheckApplies) + " can return true only under a test for the extension " + strings.TrimPrefix(s.extOID, "&") + ", which the parser turns into this field"
+						}
+						out = append(out, s)
+					}
+				}
 			case *ssa.BinOp:
 				if !reach[f] || (x.Op != token.QUO && x.Op != token.REM) {
 					return
@@ -1101,4 +1187,25 @@ func errIgnoredDeref(f *ssa.Function, x *ssa.Call, posStr string) *panicSite {
 		s.how = "every use is dominated by a nil test of the result"
 	}
 	return s
+}
+
+// callersOf: static call sites of every function, over the module's functions.
+var callersMemo map[*ssa.Function][]*ssa.Call
+var callersCtx *Ctx
+
+func callersOf(c *Ctx) map[*ssa.Function][]*ssa.Call {
+	if callersCtx == c && callersMemo != nil {
+		return callersMemo
+	}
+	callersCtx, callersMemo = c, map[*ssa.Function][]*ssa.Call{}
+	for _, f := range modFunctions(c) {
+		allInstrs(f, func(in ssa.Instruction) {
+			if call, ok := in.(*ssa.Call); ok {
+				if g := call.Call.StaticCallee(); g != nil {
+					callersMemo[g] = append(callersMemo[g], call)
+				}
+			}
+		})
+	}
+	return callersMemo
 }
